@@ -33,6 +33,7 @@ import (
 
 	"verif/harness/internal/engine"
 	"verif/harness/internal/ev"
+	"verif/harness/internal/loglevel"
 	"verif/harness/internal/vclock"
 )
 
@@ -68,7 +69,7 @@ type step struct {
 	// Retry (arrive): the transaction carries the id of an earlier request of the case that was allowed, has
 	// returned and whose clean-up has finished (a retried call re-sends x-lunar-req-id); none such: a fresh id
 	Retry bool `json:"retry_with_the_id_of_an_allowed_request,omitempty"`
-	N          int    `json:"n,omitempty"`           // tick: how many; release/remove: which held goroutine
+	N     int  `json:"n,omitempty"` // tick: how many; release/remove: which held goroutine
 }
 
 type sched struct {
@@ -76,6 +77,8 @@ type sched struct {
 	Steps    []step `json:"steps"`
 	Tail     []step `json:"after_cancel,omitempty"` // arrivals between context cancellation and the draining tick
 	KeepHeld bool   `json:"keep_removals_held_at_shutdown,omitempty"`
+	// LogLevel: the gateway's log level (LOG_LEVEL), output discarded; "" / "off" = logging disabled
+	LogLevel string `json:"log_level,omitempty"`
 }
 
 var prioOf = map[string]int{"High": 1, "mid": 2, "low": 3}
@@ -1119,6 +1122,7 @@ func (x *executor) abort() {
 }
 
 func runSchedule(sc sched, opts execOpts) (rep report) {
+	defer loglevel.Set(sc.LogLevel)()
 	x := &executor{sc: sc, opts: opts, rep: &rep, classes: map[string]bool{}, byID: map[string]*rq{}, caseID: caseCounter.Add(1)}
 	defer func() {
 		for c := range x.classes {
@@ -1366,6 +1370,7 @@ func genSched() *rapid.Generator[sched] {
 			}
 		}
 		sc.KeepHeld = rapid.Bool().Draw(t, "keepheld")
+		sc.LogLevel = loglevel.Gen().Draw(t, "log level")
 		return sc
 	})
 }
@@ -1454,6 +1459,7 @@ func TestQueueSchedules(t *testing.T) {
 		cases++
 		r.Class(fmt.Sprintf("size=%d", sc.Config.Size))
 		r.Class(fmt.Sprintf("max=%d", sc.Config.Max))
+		r.Class("log level " + sc.LogLevel)
 		fail, trace, infra, inc := runCase(r, sc)
 		if infra != "" {
 			fmt.Println("VERIF-INFRA: " + infra)
